@@ -49,7 +49,11 @@ struct Prob {
   bool pmin = false;                // without certificate: the planted point is claimed to be a global minimiser of the relaxed problem
   bool has_eq = false;
   int nctr = 0;
-  string obj, ctrs, specs;          // dumped from the System
+  string obj, ctrs, specs;          // dumped from the System (constraints flattened: one scalar constraint per component)
+  vector<pair<const ExprNode*, CmpOp> > flat;   // the scalar constraints, in order; finish() declares them (possibly grouped into vector-valued constraints)
+  bool vec = false;                 // group runs of constraints with the same operator into ONE vector-valued constraint of the System
+  bool want_rigor = false;
+  void addc(const ExprCtr& c) { flat.push_back(make_pair(&c.e, c.op)); }
   Prob() : box(1), p(1) {}
 };
 
@@ -100,7 +104,7 @@ static bool add_random_ctrs(Rng& r, Prob& P, const Vector& p, int k) {
     CmpOp op; double cst;
     if (r.coin()) { op = r.coin(80) ? LEQ : LT; cst = v.ub() + r.range(1, 8) / 8.0; }
     else { op = r.coin(80) ? GEQ : GT; cst = v.lb() - r.range(1, 8) / 8.0; }
-    P.fac->add_ctr(ExprCtr(e - ExprConstant::new_scalar(cst), op)); P.nctr++;
+    P.addc(ExprCtr(e - ExprConstant::new_scalar(cst), op)); P.nctr++;
   }
   return true;
 }
@@ -117,12 +121,35 @@ static bool has_thick_const(const string& d) {
   return false;
 }
 
+static string dump_scalar(const Array<const ExprSymbol>& x, const ExprNode& e) {
+  int n = x.size(); Array<const ExprSymbol> cp(n); for (int i = 0; i < n; i++) cp.set_ref(i, ExprSymbol::new_(x[i].name, Dim::scalar()));
+  Function tmp(cp, ExprCopy().copy(x, cp, e), "t");
+  return dump_fun(tmp);
+}
+
 static bool finish(Rng& r, Prob& P, const IntervalVector& sysbox) {
+  // declaration: one constraint per scalar expression, or (P.vec) maximal runs of 2..4 constraints with the same operator as one
+  // vector-valued constraint  (e1;e2;..) op 0.  The line given to the model always lists the scalar constraints.
+  bool grouped = false;
+  for (size_t j = 0; j < P.flat.size();) {
+    size_t k = j + 1;
+    if (P.vec) { while (k < P.flat.size() && k - j < 4 && P.flat[k].second == P.flat[j].second && r.coin(85)) k++; }
+    if (k - j == 1) P.fac->add_ctr(ExprCtr(*P.flat[j].first, P.flat[j].second));
+    else { Array<const ExprNode> comps(k - j); for (size_t i = j; i < k; i++) comps.set_ref(i - j, *P.flat[i].first);
+           const ExprNode& v = r.coin(80) ? (const ExprNode&)ExprVector::new_col(comps) : (const ExprNode&)ExprVector::new_row(comps);
+           P.fac->add_ctr(ExprCtr(v, P.flat[j].second)); grouped = true; }
+    j = k;
+  }
   P.sys = new System(*P.fac);
   (void)sysbox;
   P.obj = dump_fun(*P.sys->goal);
   P.ctrs = ""; P.specs = "";
-  for (int j = 0; j < P.sys->nb_ctr; j++) { if (j) { P.ctrs += "|"; P.specs += "|"; } P.ctrs += dump_fun(P.sys->ctrs[j].f); P.specs += spec_of(P.sys->ctrs[j].op); if (P.sys->ctrs[j].op == EQ) P.has_eq = true; }
+  if (!grouped)
+    for (int j = 0; j < P.sys->nb_ctr; j++) { if (j) { P.ctrs += "|"; P.specs += "|"; } P.ctrs += dump_fun(P.sys->ctrs[j].f); P.specs += spec_of(P.sys->ctrs[j].op); if (P.sys->ctrs[j].op == EQ) P.has_eq = true; }
+  else { // the scalar expressions as they were written (the System holds the simplified vector-valued ones)
+    P.fam += "+vec";
+    for (size_t j = 0; j < P.flat.size(); j++) { if (j) { P.ctrs += "|"; P.specs += "|"; } P.ctrs += dump_scalar(*P.x, *P.flat[j].first); P.specs += spec_of(P.flat[j].second); if (P.flat[j].second == EQ) P.has_eq = true; }
+  }
   if (P.sys->nb_ctr == 0) { P.ctrs = "-"; P.specs = "-"; }
   if (has_thick_const(P.obj) || has_thick_const(P.ctrs)) return false;
   // sample points: lattice / random points of the box, perturbations of the planted point
@@ -155,8 +182,8 @@ static bool fam_sepquad(Rng& r, Prob& P, double) {
   for (int i = 0; i < n; i++) if (r.coin(20) && box[i].diam() >= 0.25 && w[i] > 0) {
     const ExprSymbol& xi = (*P.x)[i];
     bool strict = r.coin(25); if (strict) strict_cut = true;    // a strict bound: the infimum is not attained (no planted point), the certificate still holds
-    if (p[i] - 0.125 >= box[i].lb() && r.coin()) { double b = p[i] - 0.125 * r.range(1, (int)std::min(8.0, (p[i] - box[i].lb()) * 8)); P.fac->add_ctr(ExprCtr(xi - ExprConstant::new_scalar(b), strict ? LT : LEQ)); cut[i] = P.nctr++; cutb[i] = b; p[i] = b; }
-    else if (p[i] + 0.125 <= box[i].ub()) { double b = p[i] + 0.125 * r.range(1, (int)std::min(8.0, (box[i].ub() - p[i]) * 8)); P.fac->add_ctr(ExprCtr(xi - ExprConstant::new_scalar(b), strict ? GT : GEQ)); cut[i] = P.nctr++; cutb[i] = b; p[i] = b; }
+    if (p[i] - 0.125 >= box[i].lb() && r.coin()) { double b = p[i] - 0.125 * r.range(1, (int)std::min(8.0, (p[i] - box[i].lb()) * 8)); P.addc(ExprCtr(xi - ExprConstant::new_scalar(b), strict ? LT : LEQ)); cut[i] = P.nctr++; cutb[i] = b; p[i] = b; }
+    else if (p[i] + 0.125 <= box[i].ub()) { double b = p[i] + 0.125 * r.range(1, (int)std::min(8.0, (box[i].ub() - p[i]) * 8)); P.addc(ExprCtr(xi - ExprConstant::new_scalar(b), strict ? GT : GEQ)); cut[i] = P.nctr++; cutb[i] = b; p[i] = b; }
   }
   const ExprNode* goal = &ExprConstant::new_scalar(c0);
   bool first_const = r.coin();
@@ -207,7 +234,7 @@ static bool fam_linear(Rng& r, Prob& P, double) {
     P.fac->add_var(*P.x, box);
     double t = r.range(1, 8) / 4.0, b = 0; for (int i = 0; i < n; i++) b += c[i] * p[i];
     const ExprNode* ax = 0; for (int i = 0; i < n; i++) { const ExprNode& m = ExprConstant::new_scalar(c[i]) * (*P.x)[i]; ax = ax ? &(*ax + m) : &m; }
-    if (r.coin()) P.fac->add_ctr(ExprCtr(*ax - ExprConstant::new_scalar(b), GEQ)); else P.fac->add_ctr(ExprCtr(ExprConstant::new_scalar(b) - *ax, LEQ));
+    if (r.coin()) P.addc(ExprCtr(*ax - ExprConstant::new_scalar(b), GEQ)); else P.addc(ExprCtr(ExprConstant::new_scalar(b) - *ax, LEQ));
     P.nctr++;
     C.c = t * b + c0; C.add_lin(t, "C0");
     for (int i = 0; i < n; i++) c[i] *= t;
@@ -261,14 +288,40 @@ static bool fam_sos(Rng& r, Prob& P, double) {
 // --- E: equality-constrained problems (eps_h relaxation, rigor mode)
 static bool fam_eq(Rng& r, Prob& P, double eps_h) {
   P.fam = "eq"; Cert C; bool cert = true;
-  int kind = r.below(4);
-  if (kind == 0) { // min x0+x1 (+ c x2) s.t. x0-x1=0 : lower corner
+  int kind = r.below(6);
+  if (kind == 4) { // min x2 s.t. x2 = x0^2 + x1^2, x0^2 + 4 x1^2 >= s^2 (non-convex, ACTIVE at the minimisers (0,+-s/2), f* = s^2/4),
+                   // with redundant bound-like constraints before the active one: the point found for the relaxed problem is
+                   // moved by the certification, which must re-check the inequalities
+    new_vars(P, 3); double s = dy(r, 1, 8, 4); Vector p(3); p[0] = 0; p[1] = s / 2; p[2] = s * s / 4; cert = false;
+    IntervalVector box(3); box[0] = Interval(-dy(r, 1, 8, 4), dy(r, 1, 8, 4)); box[1] = Interval(r.coin() ? -s : 0.0, s / 2 + dy(r, 1, 8, 4)); box[2] = Interval(-1, 3 * s * s + 4);
+    P.fac->add_var(*P.x, box); P.fac->add_goal((*P.x)[2]);
+    bool eq_first = r.coin(70);
+    const ExprNode& h = (*P.x)[2] - sqr((*P.x)[0]) - sqr((*P.x)[1]);
+    if (eq_first) { P.addc(ExprCtr(h, EQ)); P.nctr++; }
+    int fill = r.below(3); for (int i = 0; i < fill; i++) { P.addc(ExprCtr((*P.x)[i % 2] + ExprConstant::new_scalar(5 + i), GEQ)); P.nctr++; }
+    P.addc(ExprCtr(sqr((*P.x)[0]) + ExprConstant::new_scalar(4) * sqr((*P.x)[1]) - ExprConstant::new_scalar(s * s), GEQ)); P.nctr++;
+    if (!eq_first) { P.addc(ExprCtr(h, EQ)); P.nctr++; }
+    P.box = box; P.p = p; P.vec = r.coin(75); P.want_rigor = true;
+    Vector q2 = p; q2[1] = -s / 2; if (box.contains(q2)) P.pts.push_back(q2);
+  } else if (kind == 5) { // min x2 s.t. x2 = (x0-q)^2, x1 = x0, (x1-q)^2 >= t^2 : f* = t^2 at x0 = x1 = q +- t
+    new_vars(P, 3); double q = dy(r, -8, 8, 4), t = dy(r, 1, 8, 8); Vector p(3); p[0] = p[1] = q - t; p[2] = t * t; cert = false;
+    IntervalVector box(3); box[0] = Interval(q - t - dy(r, 1, 8, 4), q + (r.coin() ? t + 1 : 0.0)); box[1] = box[0]; if (r.coin()) box[1] = Interval(box[0].lb() - 0.5, box[0].ub() + 0.25); box[2] = Interval(-1, 40);
+    P.fac->add_var(*P.x, box); P.fac->add_goal((*P.x)[2]);
+    bool ineq_first = r.coin(30);
+    const ExprNode& g = sqr((*P.x)[1] - ExprConstant::new_scalar(q)) - ExprConstant::new_scalar(t * t);
+    if (ineq_first) { P.addc(ExprCtr(g, GEQ)); P.nctr++; }
+    P.addc(ExprCtr((*P.x)[2] - sqr((*P.x)[0] - ExprConstant::new_scalar(q)), EQ)); P.nctr++;
+    P.addc(ExprCtr((*P.x)[1] - (*P.x)[0], EQ)); P.nctr++;
+    if (!ineq_first) { if (r.coin()) { P.addc(ExprCtr((*P.x)[0] + ExprConstant::new_scalar(100), GEQ)); P.nctr++; } P.addc(ExprCtr(g, GEQ)); P.nctr++; }
+    P.box = box; P.p = p; P.vec = r.coin(75); P.want_rigor = true;
+    Vector q2 = p; q2[0] = q2[1] = q + t; if (box.contains(q2)) P.pts.push_back(q2);
+  } else if (kind == 0) { // min x0+x1 (+ c x2) s.t. x0-x1=0 : lower corner
     int n = r.range(2, 3); new_vars(P, n); Vector p(n); double l = dy(r, -16, 16, 8); p[0] = p[1] = l; IntervalVector box(n);
     box[0] = Interval(l, l + r.range(1, 16) / 8.0); box[1] = Interval(l, l + r.range(1, 16) / 8.0);
     double c2 = 0; if (n == 3) { c2 = dy(r, 1, 8, 4); p[2] = dy(r, -8, 8, 8); box[2] = Interval(p[2], p[2] + r.range(1, 8) / 8.0); }
     P.fac->add_var(*P.x, box);
     const ExprNode* g = &((*P.x)[0] + (*P.x)[1]); if (n == 3) g = &(*g + ExprConstant::new_scalar(c2) * (*P.x)[2]);
-    P.fac->add_goal(*g); P.fac->add_ctr(ExprCtr((*P.x)[0] - (*P.x)[1], EQ)); P.nctr++;
+    P.fac->add_goal(*g); P.addc(ExprCtr((*P.x)[0] - (*P.x)[1], EQ)); P.nctr++;
     C.c = 2 * l + (n == 3 ? c2 * p[2] : 0); C.add_lin(1, "L0"); C.add_lin(1, "L1"); if (n == 3) C.add_lin(c2, "L2");
     P.box = box; P.p = p;
   } else if (kind == 1) { // min x0^2+x1^2 s.t. x0+x1=s : relaxed minimiser t=(s-eps)/2
@@ -277,7 +330,7 @@ static bool fam_eq(Rng& r, Prob& P, double eps_h) {
     IntervalVector box(2); box[0] = Interval(s / 2 - r.range(1, 16) / 8.0, s / 2 + r.range(1, 16) / 8.0); box[1] = Interval(s / 2 - r.range(1, 16) / 8.0, s / 2 + r.range(1, 16) / 8.0);
     P.fac->add_var(*P.x, box);
     P.fac->add_goal(sqr((*P.x)[0]) + sqr((*P.x)[1]));
-    P.fac->add_ctr(ExprCtr((*P.x)[0] + (*P.x)[1] - ExprConstant::new_scalar(s), EQ)); P.nctr++;
+    P.addc(ExprCtr((*P.x)[0] + (*P.x)[1] - ExprConstant::new_scalar(s), EQ)); P.nctr++;
     C.c = 2 * t * t; C.add_sos(1, dump_expr((*P.x)[0] - ExprConstant::new_scalar(t), *P.x)); C.add_sos(1, dump_expr((*P.x)[1] - ExprConstant::new_scalar(t), *P.x)); C.add_lin(2 * t, "M0");
     if (!cert) { p[0] = p[1] = s / 2; }
     P.box = box; P.p = p;
@@ -286,7 +339,7 @@ static bool fam_eq(Rng& r, Prob& P, double eps_h) {
     IntervalVector box(2); box[0] = Interval(-a - r.range(1, 8) / 4.0, r.coin() ? a + 1 : 0.0); box[1] = Interval(-a - r.range(1, 8) / 4.0, r.coin() ? a + 1 : 0.0);
     P.fac->add_var(*P.x, box);
     P.fac->add_goal((*P.x)[0] + (*P.x)[1]);
-    P.fac->add_ctr(ExprCtr(sqr((*P.x)[0]) + sqr((*P.x)[1]) - ExprConstant::new_scalar(2 * a * a), EQ)); P.nctr++;
+    P.addc(ExprCtr(sqr((*P.x)[0]) + sqr((*P.x)[1]) - ExprConstant::new_scalar(2 * a * a), EQ)); P.nctr++;
     P.box = box; P.p = p;
   } else { // three variables on the line x0=x1=x2, separable quadratic with common centre
     new_vars(P, 3); double a = dy(r, -8, 8, 4); Vector p(3); p[0] = p[1] = p[2] = a;
@@ -295,12 +348,12 @@ static bool fam_eq(Rng& r, Prob& P, double eps_h) {
     const ExprNode* g = 0; for (int i = 0; i < 3; i++) { double w = dy(r, 1, 8, 4); const ExprNode& d = (*P.x)[i] - ExprConstant::new_scalar(a); const ExprNode& t = ExprConstant::new_scalar(w) * sqr(d); g = g ? &(*g + t) : &t; C.add_sos(w, dump_expr(d, *P.x)); }
     double c0 = dy(r, -8, 8, 4); C.c = c0;
     P.fac->add_goal(*g + ExprConstant::new_scalar(c0));
-    P.fac->add_ctr(ExprCtr((*P.x)[0] - (*P.x)[1], EQ)); P.nctr++;
-    P.fac->add_ctr(ExprCtr((*P.x)[1] - (*P.x)[2], EQ)); P.nctr++;
+    P.addc(ExprCtr((*P.x)[0] - (*P.x)[1], EQ)); P.nctr++;
+    P.addc(ExprCtr((*P.x)[1] - (*P.x)[2], EQ)); P.nctr++;
     P.box = box; P.p = p;
   }
   P.has_p = true; if (cert) P.cert = C.str();
-  if (r.coin(40)) if (!add_random_ctrs(r, P, P.p, 1)) return false;
+  if (kind < 4 && r.coin(40)) if (!add_random_ctrs(r, P, P.p, 1)) return false;
   return finish(r, P, P.box);
 }
 
@@ -316,22 +369,22 @@ static bool fam_infeasible(Rng& r, Prob& P, double) {
   const ExprSymbol& xl = (*P.x)[n - 1];
   double dl = r.coin() ? dy(r, 1, 8, 8) : dy(r, 1, 8, 512);
   switch (r.below(7)) {
-    case 0: P.fac->add_ctr(ExprCtr(sqr(x0) + ExprConstant::new_scalar(dl), LEQ)); P.nctr++; break;
-    case 1: P.fac->add_ctr(ExprCtr(pow(x0 - ExprConstant::new_scalar(1), 3), GEQ)); P.fac->add_ctr(ExprCtr(pow(x0, 3), LEQ)); P.nctr += 2; break;
-    case 2: { P.fac->add_ctr(ExprCtr(sqr(x0 - ExprConstant::new_scalar(2)) + sqr(xl) - ExprConstant::new_scalar(1), LEQ));
-              P.fac->add_ctr(ExprCtr(sqr(x0 + ExprConstant::new_scalar(2)) + sqr(xl) - ExprConstant::new_scalar(1), LEQ)); P.nctr += 2; break; }
+    case 0: P.addc(ExprCtr(sqr(x0) + ExprConstant::new_scalar(dl), LEQ)); P.nctr++; break;
+    case 1: P.addc(ExprCtr(pow(x0 - ExprConstant::new_scalar(1), 3), GEQ)); P.addc(ExprCtr(pow(x0, 3), LEQ)); P.nctr += 2; break;
+    case 2: { P.addc(ExprCtr(sqr(x0 - ExprConstant::new_scalar(2)) + sqr(xl) - ExprConstant::new_scalar(1), LEQ));
+              P.addc(ExprCtr(sqr(x0 + ExprConstant::new_scalar(2)) + sqr(xl) - ExprConstant::new_scalar(1), LEQ)); P.nctr += 2; break; }
     case 3: // (x0 - xl)^2 + delta <= 0 written with dependency: the root contraction cannot see it
-            P.fac->add_ctr(ExprCtr(sqr(x0) - ExprConstant::new_scalar(2) * x0 * xl + sqr(xl) + ExprConstant::new_scalar(n == 1 ? 1.0 : dl), LEQ)); P.nctr++; break;
+            P.addc(ExprCtr(sqr(x0) - ExprConstant::new_scalar(2) * x0 * xl + sqr(xl) + ExprConstant::new_scalar(n == 1 ? 1.0 : dl), LEQ)); P.nctr++; break;
     case 4: { // two discs whose distance slightly exceeds the sum of the radii
-              double c = 1 + dl / 2; P.fac->add_ctr(ExprCtr(sqr(x0 - ExprConstant::new_scalar(c)) + sqr(xl) - ExprConstant::new_scalar(1), LEQ));
-              P.fac->add_ctr(ExprCtr(sqr(x0 + ExprConstant::new_scalar(c)) + sqr(xl) - ExprConstant::new_scalar(1), LEQ)); P.nctr += 2; break; }
+              double c = 1 + dl / 2; P.addc(ExprCtr(sqr(x0 - ExprConstant::new_scalar(c)) + sqr(xl) - ExprConstant::new_scalar(1), LEQ));
+              P.addc(ExprCtr(sqr(x0 + ExprConstant::new_scalar(c)) + sqr(xl) - ExprConstant::new_scalar(1), LEQ)); P.nctr += 2; break; }
     case 5: // x0*xl >= 1 + delta and x0 + xl <= 2 (AM-GM), on a box around (1,1)
             if (n >= 2) { for (int i = 0; i < n; i++) box[i] = Interval(dy(r, 1, 7, 8), dy(r, 9, 24, 8));
               new_vars(P, n); const ExprSymbol& a = (*P.x)[0]; const ExprSymbol& b = (*P.x)[n - 1];      // (fresh symbols and factory; the old ones are abandoned)
               P.fac->add_var(*P.x, box); P.fac->add_goal(a + b);
-              P.fac->add_ctr(ExprCtr(a * b - ExprConstant::new_scalar(1 + dl), GEQ)); P.fac->add_ctr(ExprCtr(a + b - ExprConstant::new_scalar(2), LEQ)); P.nctr += 2; break; }
+              P.addc(ExprCtr(a * b - ExprConstant::new_scalar(1 + dl), GEQ)); P.addc(ExprCtr(a + b - ExprConstant::new_scalar(2), LEQ)); P.nctr += 2; break; }
             // fall through
-    default: P.fac->add_ctr(ExprCtr(x0 - ExprConstant::new_scalar(box[0].ub() + 0.125), GEQ)); P.nctr++; break;
+    default: P.addc(ExprCtr(x0 - ExprConstant::new_scalar(box[0].ub() + 0.125), GEQ)); P.nctr++; break;
   }
   P.box = box; P.has_p = false;
   return finish(r, P, box);
@@ -356,7 +409,7 @@ static bool fam_misc(Rng& r, Prob& P, double) {
     int n = r.range(1, 2); new_vars(P, n); double b = dy(r, -8, 8, 4); Vector p(n); p[0] = -b; if (n == 2) p[1] = 0;
     IntervalVector box(n); box[0] = Interval(-b - r.range(1, 8) / 2.0, -b + r.range(1, 8) / 2.0); if (n == 2) box[1] = Interval(-1, 2);
     P.fac->add_var(*P.x, box); const ExprNode* g = &(*P.x)[0]; if (n == 2) g = &(*g + sqr((*P.x)[1]));
-    P.fac->add_goal(*g); P.fac->add_ctr(ExprCtr(sqrt((*P.x)[0] + ExprConstant::new_scalar(b)) + ExprConstant::new_scalar(1), GEQ)); P.nctr++; P.box = box; P.p = p;
+    P.fac->add_goal(*g); P.addc(ExprCtr(sqrt((*P.x)[0] + ExprConstant::new_scalar(b)) + ExprConstant::new_scalar(1), GEQ)); P.nctr++; P.box = box; P.p = p;
   }
   P.has_p = true; P.pmin = true;
   if (r.coin(30)) if (!add_random_ctrs(r, P, P.p, 1)) return false;
@@ -379,6 +432,7 @@ static bool fam_random(Rng& r, Prob& P, double) {
 
 static bool make_problem(Rng& r, Prob& P, double eps_h, int which = -1) {
   int k = which >= 0 ? which : (int)r.below(12);
+  P.vec = r.coin(25);
   switch (k) { case 0: case 1: case 2: return fam_sepquad(r, P, eps_h); case 3: case 4: return fam_linear(r, P, eps_h); case 5: case 6: return fam_sos(r, P, eps_h);
     case 7: case 8: return fam_eq(r, P, eps_h); case 9: return fam_infeasible(r, P, eps_h); case 12: return fam_random(r, P, eps_h); default: return fam_misc(r, P, eps_h); }
 }
@@ -435,7 +489,7 @@ static Params make_params(Rng& r, const Prob& P, double eps_h) {
   static const double EA[] = {1e-3, 1e-4, 1e-6, 0.0078125, 0.0625, 0.5, 1e-2};
   static const double ER[] = {1e-3, 1e-5, 0.0625, 0.5};
   q.abs_eps_f = EA[r.below(7)]; q.rel_eps_f = r.coin(40) ? ER[r.below(4)] : 0.0; if (r.coin(8)) { q.abs_eps_f = 0; if (q.rel_eps_f == 0) q.rel_eps_f = 1e-3; }
-  q.init_loup = POS_INFINITY; q.rigor = P.has_eq ? r.coin(50) : r.coin(10);
+  q.init_loup = POS_INFINITY; q.rigor = P.want_rigor ? r.coin(80) : (P.has_eq ? r.coin(50) : r.coin(10));
   q.aub = r.coin(75); q.xcov = r.coin(70);
   q.ctc = r.below(10); q.bsc = r.below(6); q.finder = r.below(3); q.buf = r.below(4); q.choose_obj = r.coin();
   static const int PR[] = {0, 20, 50, 100}; q.crit2pr = PR[r.below(4)]; q.crit2 = r.below(8); q.beam = r.range(1, 5);
